@@ -51,6 +51,10 @@ Print Assumptions C09_invariant_under_every_interleaving.
 
 (* a DISCOVER is ONE database operation (search and hold under one lock): concurrent DISCOVERs are handled one
    at a time in the order of their database steps; the hold of the refreshed offer outlasts the probe of a REQUEST *)
+Theorem C09_discover_is_one_db_step : gf_discover_single_db_step = true /\ gf_request_db_steps = true.
+Proof. exact (conj cf_discover_single_db_step cf_request_db_steps). Qed.
+Print Assumptions C09_discover_is_one_db_step.
+
 Theorem C09_probe_fits_hold : 10 * (gf_arp_tries * gf_arp_timeout_ns) <= gf_offer_hold_ns.
 Proof. exact cf_probe_shorter_than_hold. Qed.
 Print Assumptions C09_probe_fits_hold.
